@@ -127,7 +127,7 @@ func (b *Bundle) Collision(kind string) {
 	}
 }
 
-var NonSchemaRefKinds = []string{"opParamRef", "pathParamRef", "defaultResponseRef", "codeResponseRef", "pathItemRef", "remoteParamRef", "remoteResponseRef", "remotePathItemRef"}
+var NonSchemaRefKinds = []string{"opParamRef", "pathParamRef", "defaultResponseRef", "codeResponseRef", "pathItemRef", "remoteParamRef", "remoteResponseRef", "remotePathItemRef", "remoteResponseRefRecursive", "remoteParamRefRecursive"}
 
 // NonSchemaRef plants a parameter / response / path-item $ref to a shared object.
 func (b *Bundle) NonSchemaRef(kind string) {
@@ -179,6 +179,27 @@ func (b *Bundle) NonSchemaRef(kind string) {
 		b.section(b.aux(f), "responses")["rr"+k] = jx.Obj{"description": b.lbl("rr"), "schema": jx.Obj{"type": "array", "items": jx.Obj{"$ref": "#/definitions/RR" + k}}}
 		op := b.Op(b.newPath(), Pick(b.rng, MethodsAll), true)
 		jx.AsObj(op["responses"])["200"] = jx.Obj{"$ref": f + "#/responses/rr" + k}
+	case "remoteResponseRefRecursive":
+		// a remote response whose schema is a $ref local to the auxiliary document, to a self-recursive definition
+		// which is also reached from a sibling document under another spelling
+		f := "sub/a.json"
+		b.AuxDef(f, "Inner"+k, jx.Obj{"type": "object", "description": b.lbl("in"), "properties": jx.Obj{"i": jx.Obj{"type": "integer"}, "again": jx.Obj{"$ref": "#/definitions/Inner" + k}}})
+		b.section(b.aux(f), "responses")["rec"+k] = jx.Obj{"description": b.lbl("rr"), "schema": jx.Obj{"$ref": "#/definitions/Inner" + k}}
+		b.AuxDef("sub/s.json", "Sib"+k, jx.Obj{"type": "object", "description": b.lbl("sb"), "properties": jx.Obj{"w": jx.Obj{"$ref": "a.json#/definitions/Inner" + k}}})
+		op := b.Op(b.newPath(), Pick(b.rng, MethodsAll), true)
+		jx.AsObj(op["responses"])["200"] = jx.Obj{"$ref": f + "#/responses/rec" + k}
+		jx.AsObj(op["responses"])["201"] = jx.Obj{"description": b.lbl("sib"), "schema": jx.Obj{"$ref": "sub/s.json#/definitions/Sib" + k}}
+		b.Tag("cycle")
+	case "remoteParamRefRecursive":
+		f := "other/c.json"
+		b.AuxDef(f, "PInner"+k, jx.Obj{"type": "object", "description": b.lbl("pin"), "properties": jx.Obj{"again": jx.Obj{"type": "array", "items": jx.Obj{"$ref": "#/definitions/PInner" + k}}}})
+		sharedParam(b.aux(f), "prec"+k, jx.Obj{"$ref": "#/definitions/PInner" + k})
+		b.AuxDef("other/d.json", "PSib"+k, jx.Obj{"type": "object", "description": b.lbl("psb"), "properties": jx.Obj{"w": jx.Obj{"$ref": "c.json#/definitions/PInner" + k}}})
+		p := b.newPath()
+		op := b.Op(p, Pick(b.rng, MethodsAll), true)
+		jx.AsObj(jx.AsObj(b.Root["paths"])[p])["parameters"] = jx.Arr{jx.Obj{"$ref": f + "#/parameters/prec" + k}}
+		jx.AsObj(op["responses"])["200"] = jx.Obj{"description": b.lbl("sib"), "schema": jx.Obj{"$ref": "other/d.json#/definitions/PSib" + k}}
+		b.Tag("cycle")
 	case "remotePathItemRef":
 		f := "sub/deep/b.json"
 		b.AuxDef(f, "RPI"+k, b.Obj())
@@ -344,7 +365,7 @@ func RndBundle(rng *rand.Rand, maxFeatures int) *Bundle {
 			}
 			t := Pick(rng, BundleTargets)
 			if single {
-				for t == "remoteDef" || t == "remoteChain" || t == "remoteRecursive" {
+				for t == "remoteDef" || t == "remoteChain" || t == "remoteRecursive" || t == "remoteCrossFileCycle" || t == "remoteSiblingCircular" {
 					t = Pick(rng, BundleTargets)
 				}
 			}
